@@ -37,6 +37,31 @@ def handleProbe (fs : List (String × String)) : String := Id.run do
     else none
   return verdict agree bad (evs.length ≥ 2) s!"probe-{tcp}-{if mSusp then "fail" else "ok"}" (if agree then "" else s!"model=susp:{mSusp},score:{mScore}")
 
+/-- a probe whose direct ping the transport refused (`err=local|remote`), nothing injected -/
+def handleSendErr (fs : List (String × String)) : String := Id.run do
+  let some indirect := getNat fs "indirect" | return "PARSE indirect"
+  let some amax := getNat fs "amax" | return "PARSE amax"
+  let some s0 := getNat fs "s0" | return "PARSE s0"
+  let some score := getNat fs "score" | return "PARSE score"
+  let some handlers := getNat fs "handlers" | return "PARSE handlers"
+  let some expn := getNat fs "expnacks" | return "PARSE expnacks"
+  let pre := getD fs "pre" "0" == "1"   -- suspected before the probe: its state says nothing about the probe
+  let errK := getD fs "err" "?"
+  let sent : Sent := if errK == "local" then .localError else if errK == "remote" then .remoteError else .ok
+  let c : Cfg := { probeInterval := 1000000000, probeTimeout := 500000000, awarenessMax := amax, indirectChecks := indirect }
+  let (mSusp, mDelta) := probeWithSend sent c s0 [] expn false
+  let mScore := applyDelta amax s0 mDelta
+  let suspected := if pre then mSusp else getD fs "suspected" "0" == "1"
+  let agree := mSusp == suspected && mScore == score
+  let bad : Option String :=
+    if handlers != 0 then some s!"pending-probe-record-not-discarded:{handlers}"
+    else if score < s0 then some s!"health-score-fell-without-an-acknowledged-probe:{s0}->{score}:ping-refused-{errK}"
+    else if score > amax - 1 then some s!"health-score-out-of-range:{score}"
+    else if errK == "local" && suspected then some "member-suspected-although-the-ping-never-left"
+    else if errK == "remote" && !suspected then some "unanswered-probe-counted-as-answered:the-ping-was-refused-with-a-remote-error-and-nothing-was-acknowledged"
+    else none
+  return verdict agree bad true s!"senderr-{errK}" (if agree then "" else s!"model=susp:{mSusp},score:{mScore}")
+
 def handleRelay (fs : List (String × String)) : String := Id.run do
   let nack := getD fs "nack" "0" == "1"
   let mode := getD fs "mode" "?"
@@ -122,6 +147,14 @@ def handle (kind : String) (fs : List (String × String)) : String :=
   match kind with
   | "tbl" => handleTbl fs
   | "probe" => handleProbe fs
+  | "senderr" => handleSendErr fs
+  | "fresh" =>
+      let dups := (getNat fs "dups").getD 0
+      let total := (getNat fs "workers").getD 0 * (getNat fs "per").getD 0
+      let distinct := (getNat fs "distinct").getD 0
+      verdict (dups == 0 && distinct == total)
+        (if dups == 0 && distinct == total then none else some s!"{dups}-sequence-numbers-handed-to-two-concurrent-probes@first:{getD fs "first" "?"}")
+        true "fresh" ""
   | "relay" => handleRelay fs
   | "score" => handleScore fs
   | _ => "PARSE kind"
